@@ -296,6 +296,19 @@ def capacity_task(task):
                             tu.compute_log_S([anchors[j % 3], pool[j]])
                             tu._convolve_two_children(pool[j], anchors[j % 3])
                             part.count("evaluations", 2)
+        # the same with three and four children per list: the cached result of one pairwise step is itself the argument
+        # of the next one, entries die (eviction, an occasional clear of the pairwise cache) and their memory is reused
+        for rnd in range(2):
+            for i, a in enumerate(pool):
+                kids = [a, anchors[i % 3], anchors[(i + 1) % 3]] + ([pool[i - 1]] if i % 4 == 0 and i else [])
+                tu.compute_log_S(kids)
+                part.count("evaluations")
+                if i % 7 == 0 and i >= 1200:
+                    j = i - 1200
+                    tu.compute_log_S([pool[j], anchors[j % 3], anchors[(j + 1) % 3]][::-1])
+                    part.count("evaluations")
+                if i % 2500 == 2499:
+                    tu._convolve_two_children.cache_clear()
         info = tu.compute_log_S.cache_info()
         part.count("capacity_histories")
         part.maxi("children_recursion_cache_fill", info.currsize)
